@@ -417,7 +417,11 @@ func (g *repoGen) directed(cfg repoCfg, kind int) []repoOp {
 	tick := repoOp{Kind: "tick"}
 	var ops []repoOp
 	first := func(o repoOp) { ops = append(ops, o) }
-	switch kind % 8 {
+	switch kind % 9 {
+	case 8: // verify_log: a verified list, then an unverifiable one (installed), then a restart under 'verify' (disk: found again)
+		ops = append(ops, repoOp{Kind: "restartcfg", Sig: "verify_log"}, serve(1, 10), hs(7, 10, 1),
+			serve([]int{9, 2}[rng.Intn(2)], 13), tick, hs(7, 13, 1), repoOp{Kind: "restartcfg", Sig: "verify"},
+			hs(7, 13, 1), hs(7, 10, 1), serve(1, 12), tick, hs(7, 12, 1), hs(7, 13, 1))
 	case 7: // a list taken in while signatures were not enforced, then a restart under 'verify' (disk: the list is found again)
 		ops = append(ops, repoOp{Kind: "restartcfg", Sig: []string{"none", "verify_log"}[rng.Intn(2)]},
 			serve([]int{9, 2, 9}[rng.Intn(3)], 13, 14), hs(7, 13, 1), repoOp{Kind: "restartcfg", Sig: "verify"},
@@ -495,7 +499,7 @@ func (g *repoGen) history(cfg repoCfg, n int) []repoOp {
 	rng := g.rng
 	g.hist++
 	if rng.Intn(3) != 0 { // (drawn, not counted: the configuration rotates with the history index)
-		ops = g.directed(cfg, rng.Intn(8))
+		ops = g.directed(cfg, rng.Intn(9))
 		n += len(ops) / 2
 	}
 	cdps := []int{1, 2, 5}
